@@ -199,8 +199,12 @@ inline int harness_main(Harness &h, int argc, char **argv) {
   double t0 = now_s();
   Summary S;
   std::map<std::string, int> minimised_per_class;
+  uint64_t recycle_next = 0; bool recycle = false;
   for (uint64_t i = offset; i < count; i += stride) {
     if (now_s() - t0 > budget) break;
+    // a worker whose resident set has grown past 1.5 GB (sanitizer quarantine, memory the library leaks on aborted calls) ends here and asks
+    // the driver for a successor that continues at this index: long phases must not run the machine out of memory
+    if (((i - offset) / stride) % 128 == 127) { long pages = 0, rss = 0; FILE *sf = fopen("/proc/self/statm", "r"); if (sf) { if (fscanf(sf, "%ld %ld", &pages, &rss) != 2) rss = 0; fclose(sf); } if ((double)rss * (double)sysconf(_SC_PAGESIZE) > 1.5e9) { recycle = true; recycle_next = i; break; } }
     uint64_t seed = from + i;
     fprintf(out, "B %llu\n", (unsigned long long)seed); fflush(out);
     Plan p = h.generate(seed);
@@ -269,8 +273,10 @@ inline int harness_main(Harness &h, int argc, char **argv) {
   };
   dump("counters", S.counters); dump("strategies", S.strategies); dump("violation_classes", S.violation_classes);
   s << ",\"samples\":["; for (size_t i = 0; i < S.samples.size(); i++) s << (i ? "," : "") << S.samples[i]; s << "]}";
+  if (recycle) fprintf(out, "C %llu\n", (unsigned long long)recycle_next);
   fprintf(out, "S %s\n", s.str().c_str());
   fclose(out);
+  if (recycle) return 75;
   return 0;
 }
 
